@@ -67,6 +67,14 @@ Theorem C04_flush_columns : forall s ops s' cur,
 Proof. exact flush_columns. Qed.
 Print Assumptions C04_flush_columns.
 
+(* The oracle's checker for "each in its own place, exactly once" (clause 4 of flush_checkb,
+   evaluated on the operations the C implementation sent) is this theorem's statement: on the
+   model's own operations it always answers true. *)
+Theorem C04_flush_covers : forall s ops s',
+  Inv s -> acells_ok (abs_rb s) -> flush s = Ok (ops, s') -> covers_checkb (ag (abs_rb s)) ops = true.
+Proof. exact flush_covers. Qed.
+Print Assumptions C04_flush_covers.
+
 (* ... for every buffer a drawing program reaches (line styles 1..3). *)
 Theorem C04_flush_columns_reachable : forall L C prog s v cur,
   0 <= L -> 0 <= C -> Forall op_ok prog -> run (rb_new L C) prog = Ok (s, v) ->
